@@ -15,7 +15,8 @@ RULE = ('each generated mutation history is executed three times on the real cod
         'the generated sparse reads and random full observations, (c) with every attribute, statistic and validate() '
         'read in a fresh random order before every mutation; the final full observations (attributes, running sets, '
         'stats, validation data) must coincide, and (b) is also compared with the Lean spec at both depths. '
-        'Non-trivial: history with >= 10 mutations; distinct by (parameter set, seed).')
+        'Non-trivial: history with >= 10 mutations; distinct by (parameter set, seed).'
+        ' Simulator-backed values: hardener histories with no reads vs everything read before every mutation, and the read-order oracle shared with C12.')
 ASSUMPTIONS = ['key enumeration of the attribute map is excluded (documented to grow with reads)',
                'RAH simulator reads: the read-order oracle shared with C12 (attrs[x] vs attrs.get(x), order, repetition, failing simulations)']
 CLAUSES = {
